@@ -257,7 +257,7 @@ def gen_spec(prop, rng, tier):
             if rng.random() < 0.2:
                 seqs[rng.randrange(len(seqs))] = ''
         spec['arr_seqs'] = seqs
-    spec['faults'] = enumerate_faults(spec, rng)
+    spec['faults'] = enumerate_faults(spec, rng, pairs=0 if tier == 'quick' else 4)
     cost = sum(len(x) for x in wl['seqs']) * max(len(x) for x in wl['seqs']) + len(data) * 50
     if tier == 'quick' and cost > 3_000_000 and len(spec['faults']) > 8:
         # expensive scenario (long rows under ASan): a seeded sample of the placements instead of all of them
@@ -266,8 +266,14 @@ def gen_spec(prop, rng, tier):
     return spec
 
 
-def enumerate_faults(spec, rng):
-    """every single-fault placement for this scenario"""
+def flist(fault):
+    if not fault:
+        return []
+    return [fault['a'], fault['b']] if fault['k'] == 'pair' else [fault]
+
+
+def enumerate_faults(spec, rng, pairs=0):
+    """every single-fault placement for this scenario (+ `pairs` seeded two-fault combinations)"""
     if spec['mode'] == 'arr':
         return []
     n = len(spec['data'])
@@ -284,10 +290,14 @@ def enumerate_faults(spec, rng):
         F += [{'k': 'openw', 'e': 'ENOENT'}, {'k': 'openw', 'e': 'EACCES'}, {'k': 'openw', 'e': 'EISDIR'}, {'k': 'openw', 'e': 'EROFS'}]
     if spec['mode'] == 'cli':
         F += [{'k': 'stdin', 'v': 'closed'}, {'k': 'stdin', 'v': 'empty'}, {'k': 'stdin', 'v': 'data'}, {'k': 'stdin', 'v': 'garbage'}]
+    for _ in range(pairs):
+        a, b = rng.sample(F, 2)
+        if a['k'] != b['k'] and 'pair' not in (a['k'], b['k']):
+            F.append({'k': 'pair', 'a': a, 'b': b})
     return F
 
 
-def build_plan(spec, fault, tag, junk=None):
+def build_plan(spec, fault_in, tag, junk=None):
     wl = spec['wl']
     w = dict(spec['world'])
     if junk is not None:
@@ -300,7 +310,7 @@ def build_plan(spec, fault, tag, junk=None):
     kind = 'f'
     stdin = ('tty', b'')
     outpath = spec['outpath']
-    if fault:
+    for fault in flist(fault_in):
         k = fault['k']
         if k == 'input_is_dir':
             kind = 'd'
@@ -313,7 +323,7 @@ def build_plan(spec, fault, tag, junk=None):
             else:
                 stdin = (v, b'')
     p.files.append((infile, kind, data if kind == 'f' else b''))
-    if fault:
+    for fault in flist(fault_in):
         k = fault['k']
         if k in ('stat', 'openr'):
             p.faults.append((infile, k, fault['e'], 0))
@@ -348,6 +358,8 @@ def build_plan(spec, fault, tag, junk=None):
 def fault_name(f):
     if not f:
         return 'none'
+    if f['k'] == 'pair':
+        return fault_name(f['a']) + '+' + fault_name(f['b'])
     if f['k'] == 'stdin':
         return 'stdin:' + f['v']
     if f['k'] == 'input_is_dir':
@@ -468,7 +480,8 @@ def outcome(spec, res, ix, fault):
         import props_sched
         text = props_sched._strip_log(text, fmt)
     rows, _, _ = oracles.parse_output(fmt, text)
-    if fault and fault['k'] == 'stdin' and fault['v'] == 'garbage':
+    fl = flist(fault)
+    if any(f['k'] == 'stdin' and f['v'] == 'garbage' for f in fl):
         return ('OK', 'content-not-judged', '')     # names/records from random bytes: only safety clauses apply
     alt_rows = []
     if spec['extra_args']:
@@ -484,13 +497,14 @@ def outcome(spec, res, ix, fault):
                 r2, _, _ = oracles.parse_output(f2, props_sched._strip_log(t, f2))
                 if len(r2) >= 2:
                     alt_rows.append(r2)
-    stdin_extra = fault and fault['k'] == 'stdin' and fault['v'] in ('data', 'garbage')
-    if spec['cls'] == 'wellformed' and spec['fmt_in'] == 'fasta' and not stdin_extra and not (fault and fault['k'] == 'read') and not spec['extra_args']:
+    stdin_extra = any(f['k'] == 'stdin' and f['v'] in ('data', 'garbage') for f in fl)
+    readfault = next((f for f in fl if f['k'] == 'read'), None)
+    if spec['cls'] == 'wellformed' and spec['fmt_in'] == 'fasta' and not stdin_extra and not readfault and not spec['extra_args']:
         pr = oracles.integrity(spec['wl']['names'], spec['wl']['seqs'], rows, check_names=True)
         if pr:
             return ('BAD', 'INVALID_ALIGNMENT', '%s: %s' % pr[0])
         return ('OK', '', '')
-    if spec['cls'] == 'wellformed' and spec['fmt_in'] == 'fasta' and fault and fault['k'] == 'read' and not stdin_extra and not spec['extra_args']:
+    if spec['cls'] == 'wellformed' and spec['fmt_in'] == 'fasta' and readfault and not stdin_extra and not spec['extra_args']:
         # alignment of the records delivered before the fault: full rows, the last one possibly a prefix
         names, seqs = spec['wl']['names'], spec['wl']['seqs']
         if len(rows) > len(names):
@@ -512,7 +526,7 @@ def outcome(spec, res, ix, fault):
             if loose_valid(r2, extra + data + data) is None:
                 why = None
                 break
-    garbage_in = spec['cls'] != 'wellformed' or (fault and fault['k'] == 'read')     # a read fault truncates mid-line
+    garbage_in = spec['cls'] != 'wellformed' or bool(readfault)     # a read fault truncates mid-line
     if why and (any(n == b'' for n, _ in rows) or (fmt != 'fasta' and b'\n ' in text and garbage_in)):
         # garbage input made kalign read a sequence without a name; a nameless row cannot be told from
         # padding in msf/clu, so the content oracle is not applied (memory safety etc. still are)
